@@ -118,6 +118,17 @@ def run(ctx):
                 Ur2, sr2, Vtr2 = rec['last']
                 terms.append(f'({m}%nat, {n}%nat, {R}%nat, {tmat(Ur2)}, [' + '; '.join(cm.zlit(tok(v)) for v in sr2) + f'], {tmat(Vtr2)}, {tqmat(Ut)}, [' + '; '.join(cm.zlit(tok(v)) for v in st) + f'], {tqmat(Vt)})')
                 ctx.count(('trunc', m, n, cls, R), True)
+    # a buffer that is decomposed, edited in place and decomposed again: every answer must describe the CURRENT content
+    for (m, n) in ((3, 3), (4, 3)):
+        A1, _, _ = spectral_problem(rng, m, n, [Fraction(3), Fraction(2), Fraction(1)]); A2, _, _ = spectral_problem(rng, m, n, [Fraction(7), Fraction(5), Fraction(1, 2)])
+        buf = qx.to_np(A1).copy(); qsvd.classical_qsvd(buf, 1); qsvd.classical_qsvd_full(buf)
+        buf[...] = qx.to_np(A2)
+        for R in (1, 2, 3):
+            U, sg, V = qsvd.classical_qsvd(buf, R)
+            if max(abs(float(a) - b) for a, b in zip(sg, (7.0, 5.0, 0.5))) > 1e-9 * 7: viol('C05:sequence:in-place-edit', f'classical_qsvd(R={R}) on a buffer edited in place returns the values of its previous content', {'shape': [m, n], 'R': R}, sg.tolist(), [7.0, 5.0, 0.5][:R])
+        U, sg, V = qsvd.classical_qsvd_full(buf)
+        if fro(utils.quat_matmat(utils.quat_matmat(U, diagq(sg, m, n)), utils.quat_hermitian(V)) - buf) > 1e-9 * 7: viol('C05:sequence:in-place-edit', 'classical_qsvd_full on a buffer edited in place does not reconstruct its current content', {'shape': [m, n]})
+        ctx.count(('sequence', m, n), True)
     # entries confined to a component subspace (span{1,k}, pure k, span{i,j}, ...): reference values from an independent real embedding
     from .c02 import rexp_ref
     for mask in ((1, 0, 0, 1), (0, 0, 0, 1), (1, 1, 0, 0), (1, 0, 1, 0), (0, 1, 1, 0), (0, 0, 1, 1), (1, 0, 0, 0), (0, 1, 0, 0)):
